@@ -158,7 +158,7 @@ pub(crate) fn c07_oracle(c: &BuildCase, st: &mut Stats) -> Verdict {
 }
 
 pub fn c07(tier: Tier) -> Check {
-    let cases = tier.pick(480_000, 1_500_000);
+    let cases = tier.pick(480_000, 4_500_000);
     Check {
         property: "C07",
         rule: "cases = (representable configuration of any builder kind incl. compounds and third-party writers, construction path); \
@@ -215,7 +215,7 @@ pub fn c07(tier: Tier) -> Check {
             }),
             Box::new(RandomLeg {
                 name: "sdes-chunk-and-item-builders",
-                cases: tier.pick(160_000, 300_000),
+                cases: tier.pick(160_000, 900_000),
                 make: Box::new(|| super::sizes::part_case(true)),
                 oracle: super::sizes::c07_part_oracle,
             }),
